@@ -136,9 +136,9 @@ def parseFacts (s : String) : Option (List VCall) :=
       | _, _, _ => none
     | _ => none
 
-/-- the flag word the scenario supports: DISABLE_TLS (1) and TRUST_TLS (8); LEGACY_SSL (4) is added
-    by the path -/
-def flagsOk (f : Nat) : Bool := f == 0 || f == 1 || f == 8 || f == 9
+/-- the flag word the scenario supports: DISABLE_TLS (1) or TRUST_TLS (8) (xmpp_conn_set_flags refuses
+    the two together); LEGACY_SSL (4) is added by the path -/
+def flagsOk (f : Nat) : Bool := f == 0 || f == 1 || f == 8
 
 def policyOf (c : Case) : Policy :=
   { domain := c.domain, trust := c.flags / 8 % 2 == 1, disabled := c.flags % 2 == 1,
